@@ -351,8 +351,9 @@ def main(argv=None):
                 if e is not None:
                     known_hits[(v["clause"], v["input_class"])] += 1
                 else:
-                    p = write_replay(pid, to_jsonable(v.get("params", {})), [dict(v)], tag=v.get("part", "extra"))
-                    violations.append((p, [dict(v)]))
+                    vd = {k: v.get(k) for k in ("clause", "detail", "input_class", "exc", "frame")}
+                    p = write_replay(pid, to_jsonable(v.get("params", {})), [vd], tag=v.get("part", "extra"))
+                    violations.append((p, [vd]))
         except Exception:
             harness_errors.append("extra(): " + traceback.format_exc()[-3000:])
 
